@@ -720,11 +720,12 @@ struct PairCase {
     std::set<int> drop;
     int attack = 0;          // 0 none, 1 forged (wrong key / truncated / wrong class key), 2 additionally without MESSAGE-INTEGRITY
     bool bConnectsFirst = false;
+    bool gap = false;        // let the first agent's check arrive before the second one calls connectToHost (triggered-check path)
     std::string str() const
     {
         std::string d; for (int k : drop) d += std::to_string(k);
         return "pair ctlA=" + std::to_string(ctlA) + " ctlB=" + std::to_string(ctlB) + " comp=" + std::to_string(comp) + " addrs=" + std::to_string(nAddrA) + "/" + std::to_string(nAddrB) +
-            " rev=" + std::to_string(reverseCands) + " proxy=" + std::to_string(viaProxy) + " drop=" + (d.empty() ? "-" : d) + " attack=" + std::to_string(attack) + " bfirst=" + std::to_string(bConnectsFirst);
+            " rev=" + std::to_string(reverseCands) + " proxy=" + std::to_string(viaProxy) + " drop=" + (d.empty() ? "-" : d) + " attack=" + std::to_string(attack) + " bfirst=" + std::to_string(bConnectsFirst) + " gap=" + std::to_string(gap);
     }
 };
 
@@ -781,8 +782,8 @@ static void runPair(const PairCase &pc, Rng &rng, int deadlineMs)
     };
     attackRound(false); pump(3); drainAttacker(false);
     const long long gotBeforeNoMi = attackerGot;
-    if (pc.bConnectsFirst) { B.conn->connectToHost(); attackRound(true); A.conn->connectToHost(); }
-    else { A.conn->connectToHost(); attackRound(true); B.conn->connectToHost(); }
+    if (pc.bConnectsFirst) { B.conn->connectToHost(); attackRound(true); if (pc.gap) pump(6); A.conn->connectToHost(); }
+    else { A.conn->connectToHost(); attackRound(true); if (pc.gap) pump(6); B.conn->connectToHost(); }
     QElapsedTimer el; el.start();
     const bool conflict = pc.ctlA == pc.ctlB;
     int rounds = 0;
@@ -856,6 +857,7 @@ static void part2(const Args &a, Rng &rng)
                         PairCase pc; pc.ctlA = roles == 0 || roles == 2; pc.ctlB = roles == 1 || roles == 2;
                         pc.comp = comps[n % 3]; pc.nAddrA = na; pc.nAddrB = nb; pc.reverseCands = rev; pc.bConnectsFirst = bfirst;
                         pc.attack = n % 3 == 2 ? 0 : 1;
+                        pc.gap = (n / 2) % 2;
                         runPair(pc, rng, 3000);
                         n++;
                     }
@@ -869,7 +871,7 @@ static void part2(const Args &a, Rng &rng)
         PairCase pc; pc.viaProxy = true;
         pc.drop = thorough ? subsets[i % 16] : subsets[(i == 0) ? 0 : 1 + rng.below(15)];
         pc.ctlA = thorough ? (i < 16) : rng.coin(); pc.ctlB = !pc.ctlA;
-        pc.comp = comps[i % 3]; pc.attack = i % 2; pc.bConnectsFirst = rng.coin();
+        pc.comp = comps[i % 3]; pc.attack = i % 2; pc.bConnectsFirst = rng.coin(); pc.gap = rng.coin();
         runPair(pc, rng, 5000);
         stat("loss_cases");
     }
@@ -885,7 +887,8 @@ static void detectFix(Rng &rng)
     gSock[3]->writeDatagram(forge(mk(9, "req", "abs", 1), c, none, QHostAddress(LOOP), v.port(), rng), QHostAddress(LOOP), v.port());
     QElapsedTimer el; el.start();
     while (el.elapsed() < 30) { pump(1); QThread::usleep(100); }
-    gFix = gSock[3]->hasPendingDatagrams() ? 0 : 1;   // unchanged tree: a Binding success response comes back
+    // unchanged tree: a Binding success response comes back; repaired tree: nothing but the "missing MESSAGE-INTEGRITY" warning
+    gFix = (!gSock[3]->hasPendingDatagrams() && v.warns.contains(QStringLiteral("nomi"))) ? 1 : 0;
     drainAll();
 }
 
